@@ -982,3 +982,33 @@ func matchListSpec(name string, delim rune, reference, pattern string) bool {
 //@ func (w *FetchResponseWriter) Close() (err error)
 //@   props C06:post
 //@   ensures old(w.enc) != nil ==> __called("responseEncoder.end") && w.enc == nil
+
+// ---------------------------------------------------------------------------
+// C02: the back end receives the very mailbox name the decoder produced for
+// that argument - not a variable overwritten by a later Expect* call, not a
+// transformed copy (the last ExpectMailbox call's out-parameter is a ghost
+// record: __resultStr(name, 100+argument index)).
+
+//@ func (c *Conn) handleCreate(dec *imapwire.Decoder) (err error)
+//@   props C02:callsite
+//@   callsite Session.Create(s Session, mailbox string, options *imap.CreateOptions) requires mailbox == __resultStr("Decoder.ExpectMailbox", 101)
+
+//@ func (c *Conn) handleDelete(dec *imapwire.Decoder) (err error)
+//@   props C02:callsite
+//@   callsite Session.Delete(s Session, mailbox string) requires mailbox == __resultStr("Decoder.ExpectMailbox", 101)
+
+//@ func (c *Conn) handleRename(dec *imapwire.Decoder) (err error)
+//@   props C02:callsite
+//@   callsite Session.Rename(s Session, mailbox string, newName string) requires newName == __resultStr("Decoder.ExpectMailbox", 101)
+
+//@ func (c *Conn) handleSubscribe(dec *imapwire.Decoder) (err error)
+//@   props C02:callsite
+//@   callsite Session.Subscribe(s Session, mailbox string) requires mailbox == __resultStr("Decoder.ExpectMailbox", 101)
+
+//@ func (c *Conn) handleUnsubscribe(dec *imapwire.Decoder) (err error)
+//@   props C02:callsite
+//@   callsite Session.Unsubscribe(s Session, mailbox string) requires mailbox == __resultStr("Decoder.ExpectMailbox", 101)
+
+//@ func (c *Conn) handleStatus(dec *imapwire.Decoder) (err error)
+//@   props C02:callsite
+//@   callsite Session.Status(s Session, mailbox string, options *imap.StatusOptions) requires mailbox == __resultStr("Decoder.ExpectMailbox", 101)
